@@ -283,3 +283,48 @@ func loopBypass(head, must *ssa.BasicBlock) bool {
 	}
 	return false
 }
+
+// mptStoreFn: the trie function that files a node in the store and feeds the
+// change collector: insertNode itself, or the method it hands over to after
+// stamping (storeNode). Found by structure: the one that calls db.PutNode.
+func mptStoreFn(r *engine.Run, rule string) (insertNode, store *ssa.Function) {
+	insertNode = r.Fn(rule, pkgUtil, "MerklePatriciaTrie", "insertNode")
+	if insertNode == nil {
+		return nil, nil
+	}
+	puts := func(f *ssa.Function) bool {
+		found := false
+		engine.Instrs(f, func(in ssa.Instruction) {
+			if c, ok := in.(*ssa.Call); ok && invokeOnField(c, "db", "PutNode") {
+				found = true
+			}
+		})
+		return found
+	}
+	if puts(insertNode) {
+		return insertNode, insertNode
+	}
+	engine.Instrs(insertNode, func(in ssa.Instruction) {
+		c, ok := in.(*ssa.Call)
+		if !ok {
+			return
+		}
+		g := c.Call.StaticCallee()
+		if g != nil && g != insertNode && len(g.Blocks) > 0 && recvNamed(g) == "MerklePatriciaTrie" && puts(g) {
+			store = g
+			r.Touch(g)
+		}
+	})
+	return insertNode, store
+}
+
+// isNodeInstaller: c installs a node of a change set in the trie (insertNode or
+// the store function it hands over to).
+func isNodeInstaller(r *engine.Run, c ssa.CallInstruction) bool {
+	g := c.Common().StaticCallee()
+	if g == nil {
+		return false
+	}
+	ins, st := mptStoreFn(r, "")
+	return g == ins || (st != nil && g == st)
+}
